@@ -358,3 +358,10 @@ pub fn lengthen_octets(der: &[u8], needle: &[u8]) -> Option<Vec<u8>> {
     unsafe { (*p).push(0x00); }
     Some(root.encode())
 }
+
+/// A certificate under construction whose resources nobody has touched yet (one key for the whole process).
+pub fn blank_tbs() -> TbsCert {
+    thread_local! { static PK: PublicKey = { let s = SoftSigner::new(); let k = s.create_key(PublicKeyFormat::Rsa).unwrap(); s.get_key_info(&k).unwrap() }; }
+    let pk = PK.with(|p| p.clone());
+    TbsCert::new(Serial::from(1u64), pk.to_subject_name(), Validity::new(time_of(0), time_of(1)), None, pk, KeyUsage::Ca, Overclaim::Refuse)
+}
